@@ -78,26 +78,30 @@ Ltac npair :=
 Definition frame (s s' : state) : Prop := now s' = now s /\ par s' = par s.
 Definition same_reg (s s' : state) : Prop := pools s' = pools s /\ seq s' = seq s.
 
+Definition nn (s : state) : Prop := forall a d, 0 <= bal (led s) a d.
+
 Definition moves (s s' : state) (f : Z -> Z -> Z) (g : Z -> Z) : Prop :=
   (forall a d, bal (led s') a d = bal (led s) a d + f a d)
   /\ (forall d, supply s' d = supply s d + g d)
-  /\ frame s s'.
+  /\ frame s s'
+  /\ (nn s -> nn s').
 
 Definition zero2 : Z -> Z -> Z := fun _ _ => 0.
 Definition zero1 : Z -> Z := fun _ => 0.
 
 Lemma moves_refl s : moves s s zero2 zero1.
-Proof. unfold moves, frame, zero2, zero1. repeat split; intros; lia. Qed.
+Proof. unfold moves, frame, zero2, zero1. repeat split; intros; try lia. assumption. Qed.
 
 Lemma moves_trans s s1 s2 f1 g1 f2 g2 :
   moves s s1 f1 g1 -> moves s1 s2 f2 g2 ->
   moves s s2 (fun a d => f1 a d + f2 a d) (fun d => g1 d + g2 d).
 Proof.
-  intros (L1 & S1 & N1 & P1) (L2 & S2 & N2 & P2). split; [|split; [|split]].
+  intros (L1 & S1 & (N1 & P1) & K1) (L2 & S2 & (N2 & P2) & K2). split; [|split; [|split; [split|]]].
   - intros a d. rewrite L2, L1. lia.
   - intros d. rewrite S2, S1. lia.
   - congruence.
   - congruence.
+  - auto.
 Qed.
 
 Lemma moves_ext s s' f g f' g' :
@@ -117,8 +121,13 @@ Proof.
   unfold bsend. intros H. mstep H. inversion H; subst s'; clear H.
   destruct (send_Some _ _ _ _ _ _ E) as (Hx & Hne & Heq & Hoth).
   split; [exact Hx|]. split; [|split; reflexivity].
-  split; [|split; [intros; unfold zero1; simpl; unfold supply; simpl; lia|split; reflexivity]].
-  intros a' d'. simpl.
+  assert (ML : forall a' d', bal v a' d' = bal (led s) a' d' + (ind (at_ from d a' d') (- x) + ind (at_ to d a' d') x)); cycle 1.
+  { split; [exact ML|]. split; [intros; unfold zero1; simpl; unfold supply; simpl; lia|]. split; [split; reflexivity|].
+    intros Hnn a' d'. simpl. rewrite ML. pose proof (Hnn a' d').
+    assert (0 <= ind (at_ to d a' d') x) by (unfold ind; destruct (at_ to d a' d'); lia).
+    unfold ind at 1. destruct (at_ from d a' d') eqn:Ea; [|lia].
+    apply at_true in Ea. destruct Ea; subst. lia. }
+  intros a' d'.
   destruct (eq_dec (a', d') (from, d)) as [E1|N1]; destruct (eq_dec (a', d') (to, d)) as [E2|N2].
   - inversion E1; inversion E2; subst. rewrite !ind_at_same. rewrite Heq by reflexivity. lia.
   - inversion E1; subst. rewrite ind_at_same, ind_at_diff by npair.
@@ -142,11 +151,13 @@ Lemma mint_to_moves s a d x s' : mint_to s a d x = Ret s' ->
 Proof.
   unfold mint_to. destruct (Z.ltb_spec x 0) as [Hlt|Hge]; intros H; inversion H; subst s'; clear H.
   split; [exact Hge|]. split; [|split; reflexivity].
-  split; [|split; [|split; reflexivity]].
-  - intros a' d'. simpl.
+  assert (ML : forall a' d', bal (credit (led s) a d x) a' d' = bal (led s) a' d' + ind (at_ a d a' d') x).
+  { intros a' d'.
     destruct (eq_dec (a', d') (a, d)) as [E1|N1].
     + inversion E1; subst. rewrite ind_at_same, bal_credit_same. reflexivity.
-    + rewrite ind_at_diff by npair. rewrite bal_credit_other by exact N1. lia.
+    + rewrite ind_at_diff by npair. rewrite bal_credit_other by exact N1. lia. }
+  split; [exact ML|split; [|split; [split; reflexivity|]]]; cycle 1.
+  - intros Hnn a' d'. simpl. rewrite ML. pose proof (Hnn a' d'). unfold ind. destruct (at_ a d a' d'); lia.
   - intros d'. rewrite supply_with_sup. unfold ind. destruct (d' =? d) eqn:E.
     + apply Z.eqb_eq in E. subst. unfold supply. simpl. reflexivity.
     + unfold supply. simpl. lia.
@@ -160,11 +171,14 @@ Proof.
   unfold burn_from. intros H. mstep H. inversion H; subst s'; clear H.
   destruct (debit_Some _ _ _ _ _ E) as (Hx & Hsame & Hoth).
   split; [exact Hx|]. split; [|split; reflexivity].
-  split; [|split; [|split; reflexivity]].
-  - intros a' d'. simpl.
+  assert (ML : forall a' d', bal v a' d' = bal (led s) a' d' + ind (at_ a d a' d') (- x)).
+  { intros a' d'.
     destruct (eq_dec (a', d') (a, d)) as [E1|N1].
     + inversion E1; subst. rewrite ind_at_same, Hsame. lia.
-    + rewrite ind_at_diff by npair. rewrite Hoth by exact N1. lia.
+    + rewrite ind_at_diff by npair. rewrite Hoth by exact N1. lia. }
+  split; [exact ML|split; [|split; [split; reflexivity|]]]; cycle 1.
+  - intros Hnn a' d'. simpl. rewrite ML. pose proof (Hnn a' d'). unfold ind. destruct (at_ a d a' d') eqn:Ea; [|lia].
+    apply at_true in Ea. destruct Ea; subst. lia.
   - intros d'. rewrite supply_with_sup. unfold ind. destruct (d' =? d) eqn:E1.
     + apply Z.eqb_eq in E1. subst. unfold supply. simpl. lia.
     + unfold supply. simpl. lia.
@@ -460,7 +474,7 @@ Proof.
     destruct (add_liq_spec _ _ _ _ _ _ _ _ _ H) as (-> & X1 & X2 & X3 & M2 & R2).
     exists exact. split; [reflexivity|]. split; [exact X3|].
     assert (M12 : moves v s2 zero2 zero1).
-    { unfold s2, moves, frame, zero2, zero1, supply; simpl. repeat split; intros; lia. }
+    { unfold s2, moves, frame, zero2, zero1, supply, nn; simpl. repeat split; intros; try lia. auto. }
     eapply AE_create with (tax := tax); eauto.
     + eapply moves_ext; [exact (moves_trans _ _ _ _ _ _ _ (moves_trans _ _ _ _ _ _ _ M1 M12) M2)| |].
       * intros a d. unfold zero2. lia.
